@@ -284,7 +284,9 @@ func (fa *FuncAnalysis) EscapeEdges(from ssa.Instruction, targets []ssa.Instruct
 			}
 			if exitVia(exitFree, b, i) && !canTarget[s] {
 				if g, ok := fa.EdgeFact(b, i); ok {
-					out["exit when "+shallowGuard(g)] = true
+					if !uninformative(shallowGuard(g)) {
+						out["exit when "+shallowGuard(g)] = true
+					}
 				} else {
 					out["exit at an unconditional edge"] = true
 				}
@@ -329,4 +331,128 @@ func shallowImplies(have, want string) bool {
 		return flip && wo == "!="
 	}
 	return false
+}
+
+// IterationEscapes is EscapeEdges within one iteration of the innermost loop around each target: the branch edges
+// inside the loop body after which the next iteration (or the end of the loop) is reached without passing a target,
+// although a target was still reachable in this iteration - the conditions under which an ELEMENT is skipped.  A
+// per-element skip is invisible to EscapeEdges, for which the target stays reachable through the back edge.
+func (fa *FuncAnalysis) IterationEscapes(targets []ssa.Instruction) []string {
+	tset := map[ssa.Instruction]bool{}
+	heads := map[*ssa.BasicBlock]bool{}
+	for _, t := range targets {
+		tset[t] = true
+		if h := fa.InnermostLoop(t.Block()); h != nil {
+			heads[h] = true
+		}
+	}
+	firstTarget := func(b *ssa.BasicBlock) bool {
+		for _, in := range b.Instrs {
+			if tset[in] {
+				return true
+			}
+		}
+		return false
+	}
+	out := map[string]bool{}
+	for h := range heads {
+		loop := fa.NaturalLoop(h)
+		leaves := func(s *ssa.BasicBlock) bool { return s == h || !loop[s] }
+		exitFree := map[*ssa.BasicBlock]bool{}
+		canTarget := map[*ssa.BasicBlock]bool{}
+		for changed := true; changed; {
+			changed = false
+			for b := range loop {
+				if len(b.Instrs) == 0 {
+					continue
+				}
+				hasT := firstTarget(b)
+				ef, ct := false, hasT
+				for si, s := range b.Succs {
+					if fa.edgeDead(b, si) {
+						continue
+					}
+					if leaves(s) {
+						if !hasT && !errEdge(b, si) {
+							ef = true
+						}
+						continue
+					}
+					if !hasT && exitFree[s] && !errEdge(b, si) {
+						ef = true
+					}
+					if canTarget[s] {
+						ct = true
+					}
+				}
+				if _, isRet := b.Instrs[len(b.Instrs)-1].(*ssa.Return); isRet && !hasT {
+					ef = true
+				}
+				if ef != exitFree[b] || ct != canTarget[b] {
+					exitFree[b], canTarget[b] = ef, ct
+					changed = true
+				}
+			}
+		}
+		through := map[*ssa.BasicBlock]bool{}
+		var work []*ssa.BasicBlock
+		if !firstTarget(h) {
+			through[h] = true
+			work = append(work, h)
+		}
+		for len(work) > 0 {
+			b := work[len(work)-1]
+			work = work[:len(work)-1]
+			for si, s := range b.Succs {
+				if fa.edgeDead(b, si) || leaves(s) || through[s] || firstTarget(s) {
+					continue
+				}
+				through[s] = true
+				work = append(work, s)
+			}
+		}
+		for b := range through {
+			if len(b.Succs) != 2 || b.Succs[0] == b.Succs[1] || fa.edgeDead(b, 0) || fa.edgeDead(b, 1) {
+				continue
+			}
+			ct := func(s *ssa.BasicBlock) bool { return !leaves(s) && canTarget[s] }
+			if !ct(b.Succs[0]) && !ct(b.Succs[1]) {
+				continue
+			}
+			for i, s := range b.Succs {
+				if errEdge(b, i) || (b == h && !loop[s]) {
+					continue // error handling; the loop's own termination
+				}
+				skips := leaves(s) || exitFree[s]
+				if skips && !ct(s) {
+					if g, ok := fa.EdgeFact(b, i); ok && !uninformative(shallowGuard(g)) {
+						out["next element when "+shallowGuard(g)] = true
+					}
+				}
+			}
+		}
+	}
+	var res []string
+	for k := range out {
+		res = append(res, k)
+	}
+	sort.Strings(res)
+	return res
+}
+
+// uninformative: a rendered fact without any name in it (`_`, `!_`, `_ != nil`, `_ == 0`): a test of a computed local
+// whose origin the shallow rendering does not show.  Comparing such facts would only compare how a flag is spelled.
+func uninformative(s string) bool {
+	for _, r := range s {
+		if (r >= 'a' && r <= 'z') || (r >= 'A' && r <= 'Z') {
+			rest := strings.NewReplacer("nil", "", "_", "").Replace(s)
+			for _, q := range rest {
+				if (q >= 'a' && q <= 'z') || (q >= 'A' && q <= 'Z') {
+					return false
+				}
+			}
+			return true
+		}
+	}
+	return true
 }
